@@ -174,6 +174,102 @@ REAL_FUNCS = {"sqrt", "exp", "ln", "ln_1p", "tanh", "atanh", "abs", "round", "fl
               "max", "min", "clamp", "unsigned_abs", "saturating_add", "saturating_sub"}
 
 
+def const_key(v):
+    """Key of a fully constant value as produced by tables.pat_key, else None."""
+    if isinstance(v, tuple) and v:
+        if v[0] in ("variant", "bool", "str"):
+            return v[1]
+        if v[0] == "tuple":
+            ks = [const_key(x) for x in v[1]]
+            return None if any(k is None for k in ks) else tuple(ks)
+        return None
+    if isinstance(v, Poly):
+        c = v.const_value()
+        if c is not None and c.denominator == 1:
+            return int(c)
+    return None
+
+
+def key_matches(pk, ck):
+    if pk == "_":
+        return True
+    if isinstance(pk, tuple) and isinstance(ck, tuple) and len(pk) == len(ck) and (not pk or pk[0] not in ("|", "?", "range")):
+        return all(key_matches(a, b) for a, b in zip(pk, ck))
+    return pk == ck
+
+
+PANIC_RX = ("core::panicking::", "std::rt::begin_panic", "std::rt::panic_fmt", "core::panicking::assert_failed")
+
+
+def _panics(n):
+    """n is a block/expression that unconditionally ends in a call to a panic entry point."""
+    n = strip(n)
+    if n.get("k") in ("call", "mcall"):
+        return (callee(n) or "").startswith(PANIC_RX)
+    if n.get("k") == "block":
+        last = n.get("e")
+        if last is None and n.get("stmts"):
+            st = n["stmts"][-1]
+            last = st.get("e") if st.get("k") == "semi" else None
+        pre = n.get("stmts", [])[:-1] if n.get("e") is None else n.get("stmts", [])
+        if any(st.get("k") != "let" for st in pre):
+            return False
+        return last is not None and _panics(last)
+    return False
+
+
+def is_assert(e):
+    """`assert!`/`assert_eq!`-like statement: `if c { panic }` (possibly under a single-arm match / block)."""
+    e = strip(e)
+    k = e.get("k")
+    if k == "if" and "e" not in e:
+        return _panics(e["t"])
+    if k == "match" and len(e.get("arms", [])) == 1 and "guard" not in e["arms"][0]:
+        return is_assert(e["arms"][0]["body"])
+    if k == "block" and not e.get("stmts") and e.get("e") is not None:
+        return is_assert(e["e"])
+    if k == "block" and len(e.get("stmts", [])) == 1 and e.get("e") is None and e["stmts"][0].get("k") == "semi":
+        return is_assert(e["stmts"][0]["e"])
+    return False
+
+
+import re as _re
+STD_NUM_RX = _re.compile(r"(?:std|core)::(?:f32|f64|num)::<impl (\w+)>::(\w+)$")
+
+
+def single_atom(v):
+    """The atom a when v == 1*a, else None."""
+    if isinstance(v, Poly) and len(v.t) == 1:
+        (mono, c), = v.t.items()
+        if c == 1 and len(mono) == 1 and mono[0][1] == 1:
+            return mono[0][0]
+    return None
+
+
+def atom_fn(a):
+    return a[1] if a and a[0] == "f" else None
+
+
+def atom_args(a):
+    """Arguments of an application atom, with ('P', poly) keys unwrapped to the Poly."""
+    out = []
+    for k in a[2:]:
+        out.append(k[1] if isinstance(k, tuple) and len(k) == 2 and k[0] == "P" else k)
+    return out
+
+
+def split_signed(v):
+    """v == sum of +-1 * atom terms -> (plus atoms, minus atoms) or None"""
+    if not isinstance(v, Poly):
+        return None
+    plus, minus = [], []
+    for mono, c in v.t.items():
+        if len(mono) != 1 or mono[0][1] != 1 or c not in (1, -1):
+            return None
+        (plus if c == 1 else minus).append(mono[0][0])
+    return plus, minus
+
+
 class SymEval:
     """Evaluates HIR expressions symbolically.
 
@@ -181,13 +277,15 @@ class SymEval:
     `inline(callee_path) -> Body|None` decides which local callees are expanded.
     """
 
-    def __init__(self, F, mode="int", inline=None, self_name="self", max_depth=6):
+    def __init__(self, F, mode="int", inline=None, self_name="self", max_depth=6, inline_statics=False):
         self.F = F
+        self.inline_statics = inline_statics
         self.mode = mode
         self.inline = inline or (lambda p: None)
         self.self_name = self_name
         self.max_depth = max_depth
         self.depth = 0
+        self.asserts = []
 
     # ---- patterns --------------------------------------------------------
     def bind(self, pat, val, env):
@@ -262,6 +360,16 @@ class SymEval:
             if dk.startswith("Ctor"):
                 return ("variant", d.rsplit("::", 1)[-1])
             if dk.startswith("AssocConst") or dk.startswith("Const") or dk.startswith("Static"):
+                b = self.F.bodies.get(d)
+                if b is not None and b.hir and self.depth < self.max_depth and \
+                        (self.inline_statics or not dk.startswith("Static")):
+                    self.depth += 1
+                    try:
+                        return self.eval(b.value, {})
+                    except Unsupported:
+                        return var(d)
+                    finally:
+                        self.depth -= 1
                 return var(d)
             return ("fn", d)
         raise Unsupported("path res %s" % n.get("res"))
@@ -325,8 +433,22 @@ class SymEval:
                 if ca is not None and cb is not None and cb > 0 and ca >= 0 and ca.denominator == 1 and cb.denominator == 1:
                     return num(int(ca) % int(cb))
             return app("mod", a, b)
-        if op == "Shl" and isinstance(a, Poly) and isinstance(b, Poly) and b.const_value() is not None:
-            return a * num(2 ** int(b.const_value()))
+        if op == "Shl" and isinstance(a, Poly) and isinstance(b, Poly):
+            if b.const_value() is not None:
+                return a * num(2 ** int(b.const_value()))
+            return a * app("pow2", b)
+        if op == "BitAnd" and isinstance(a, Poly) and isinstance(b, Poly):
+            # x & (2^c - 1) == x mod 2^c
+            for x, mask in ((a, b), (b, a)):
+                mp = mask + num(1)
+                c = mp.const_value()
+                if c is not None and c.denominator == 1 and c > 0 and (int(c) & (int(c) - 1)) == 0:
+                    return self.arith("Rem", x, mp)
+                if len(mp.t) == 1:
+                    (mono, coef), = mp.t.items()
+                    if len(mono) == 1 and mono[0][1] == 1 and mono[0][0][:2] == ("f", "pow2") and \
+                            coef.denominator == 1 and coef > 0 and (int(coef) & (int(coef) - 1)) == 0:
+                        return self.arith("Rem", x, mp)
         if op in ("Eq", "Ne", "Lt", "Le", "Gt", "Ge"):
             flip = {"Gt": "Lt", "Ge": "Le"}
             if op in flip:
@@ -387,6 +509,11 @@ class SymEval:
                             r = self.arith(e["op"].replace("Assign", ""), self.eval(e["l"], env), r)
                         env[tgt["name"]] = r
                         continue
+                if is_assert(e):
+                    self.asserts.append(e)
+                    continue
+                if _panics(e):
+                    return ("panic",)
                 raise Unsupported("statement with effect at %s" % e.get("sp"))
         if n.get("e") is not None:
             return self.eval(n["e"], env)
@@ -404,12 +531,13 @@ class SymEval:
         s = self.eval(n["e"], env)
         # constant scrutinee: select the arm
         from .tables import pat_key, is_catch_all
-        if isinstance(s, tuple) and s and s[0] in ("variant", "bool", "str"):
+        ck = const_key(s)
+        if ck is not None:
             for a in n["arms"]:
                 key = pat_key(a["pat"])
                 keys = key[1:] if isinstance(key, tuple) and key and key[0] == "|" else (key,)
                 for kk in keys:
-                    if is_catch_all(kk) or kk == s[1]:
+                    if key_matches(kk, ck):
                         if "guard" in a:
                             raise Unsupported("guarded arm")
                         e2 = dict(env)
@@ -431,6 +559,12 @@ class SymEval:
         base = path.rsplit("::", 1)[-1] if path else "?"
         if path in IDENTITY_CALLS and len(args) == 1:
             return args[0]
+        mm = STD_NUM_RX.match(path or "")
+        if mm:
+            name = mm.group(2)
+            if name in ("max", "min") and len(args) == 2 and repr(vkey(args[0])) > repr(vkey(args[1])):
+                args = [args[1], args[0]]
+            return app(name, *args)
         body = self.inline(inst or path) or self.inline(path)
         if body is not None and self.depth < self.max_depth and body.hir:
             e2 = {}
